@@ -411,6 +411,57 @@ class _Unroller:
                     rows.append(dict(zip(names, cells)))
                 return rows
 
+            def visit_Subscript(self, node):
+                # D[bool(x)] with D = {False: a, True: b}  ->  b if x else a
+                self.generic_visit(node)
+                k = node.slice
+                if isinstance(node.ctx, ast.Load) and isinstance(
+                        k, ast.Call) and isinstance(
+                            k.func, ast.Name) and k.func.id == 'bool' and \
+                        len(k.args) == 1 and not k.keywords:
+                    d = outer._dict_of(node.value, cls_scope, local_names)
+                    if d is not None and len(d.keys) == 2 and all(
+                            isinstance(x, ast.Constant) and
+                            isinstance(x.value, bool) for x in d.keys) and \
+                            {x.value for x in d.keys} == {True, False} and \
+                            all(_simple_cell(v) for v in d.values):
+                        cell = {x.value: v for x, v in zip(d.keys, d.values)}
+                        outer.count += 1
+                        return ast.copy_location(ast.IfExp(
+                            test=k.args[0],
+                            body=copy.deepcopy(cell[True]),
+                            orelse=copy.deepcopy(cell[False])), node)
+                    # (a, b)[bool(x)]  ->  b if x else a
+                    t = outer.table(node.value, cls_scope, local_names)
+                    if t is not None and len(t.elts) == 2 and all(
+                            _simple_cell(v) for v in t.elts):
+                        outer.count += 1
+                        return ast.copy_location(ast.IfExp(
+                            test=k.args[0],
+                            body=copy.deepcopy(t.elts[1]),
+                            orelse=copy.deepcopy(t.elts[0])), node)
+                return node
+
+            def visit_Call(self, node):
+                # getattr(x, A if c else B) -> getattr(x, A) if c else ...
+                self.generic_visit(node)
+                if isinstance(node.func, ast.Name) and \
+                        node.func.id == 'getattr' and len(
+                            node.args) == 2 and not node.keywords and \
+                        isinstance(node.args[1], ast.IfExp):
+                    ie = node.args[1]
+                    a = ast.copy_location(ast.Call(
+                        func=node.func, args=[node.args[0], ie.body],
+                        keywords=[]), node)
+                    b = ast.copy_location(ast.Call(
+                        func=copy.deepcopy(node.func),
+                        args=[copy.deepcopy(node.args[0]), ie.orelse],
+                        keywords=[]), node)
+                    return ast.copy_location(ast.IfExp(
+                        test=ie.test, body=_getattr_const(a) or a,
+                        orelse=_getattr_const(b) or b), node)
+                return node
+
             def visit_ListComp(self, node):
                 self.generic_visit(node)
                 rows = self._rows(node)
